@@ -28,8 +28,48 @@ def model_check(tier):
     return out
 
 
+def connect_refused(v):
+    """Transport connection that can not be opened (F43): ULFsm.tla's cells (Evt1, Sta1) -> AE-1 -> Sta4 and
+    (Evt17, Sta4) -> AA-4 (A-P-ABORT indication) -> Sta1 on the real provider loop, with a transport whose connect()
+    is refused.  The simulated sockets of the walks / behaviours always connect; this is the one history they lack."""
+    from . import simnet, ulrun
+    from pynetdicom2 import fsm as F
+    with simnet.Env() as env:
+        real_factory = F.socket.socket
+
+        def refusing(*a, **k):
+            s = real_factory(*a, **k)
+
+            def connect(addr):
+                raise OSError(111, 'Connection refused')
+            s.connect = connect
+            return s
+        F.socket.socket = refusing
+        p = simnet.Stepped()
+        p.send(ulrun.user_pdu('RQ'))
+        inds, died = [], None
+        for _ in range(6):
+            died = p.step()
+            if died is not None:
+                break
+            inds += p.drain_user()
+        cells = [(int(e) + 1, int(st) + 1) for e, st in p.actions]
+        state = int(p.state_machine.current_state) + 1
+        told = [type(i).__name__ for i in inds]
+        ok = (died is None and cells == [(1, 1), (17, 4)] and state == 1 and told == ['AAbortPDU'] and p.dul_socket is None
+              and getattr(inds[0], 'source', None) == 0 and all(s.closed for s in env.sockets))
+        if not ok:
+            v.report({'site': 'fsm.ae_1 / dulprovider.run', 'clause': 'refused-transport-connection-is-Evt17-in-Sta4'},
+                     'transport connect refused: cells taken %s (ULFsm: [(1, 1), (17, 4)] = AE-1, AA-4), state Sta%d (Sta1), '
+                     'user told %s (one A-P-ABORT indication), socket %s, loop died with %r' % (
+                         cells, state, told, 'dropped' if p.dul_socket is None else 'kept', died),
+                     replay={'recipe': {'kind': 'connect_refused'}})
+    return 1
+
+
 def main(tier='quick'):
     v = Verdict('C05', tier)
+    n_refused = connect_refused(v)
     sd = seed()
     mc = model_check(tier)
     n_walk, n_sim, steps = (400, 150, 70) if tier == 'quick' else (6000, 1500, 120)
@@ -59,7 +99,7 @@ def main(tier='quick'):
             'states': sum(r.distinct for _, r in mc), 'transitions': sum(r.generated for _, r in mc),
             'traces_validated_against_impl': stats['traces'],
             'trace_events_validated': stats['events'], 'trace_validation_states': stats['states'],
-            'rejected_traces': stats['rejected'],
+            'rejected_traces': stats['rejected'], 'refused_transport_connect_histories': n_refused,
             'random_walks': n_walk, 'tlc_behaviours_replayed': len(runs) - n_walk - 34,
             'table_cells_exercised_on_impl': len(cells),
             'cells': sorted('Evt%d@Sta%d' % c for c in cells),
@@ -78,6 +118,11 @@ def main(tier='quick'):
 def replay(doc):
     rec = doc['replay']['recipe']
     v = Verdict('C05', 'quick')
+    if rec['kind'] == 'connect_refused':
+        connect_refused(v)
+        for x in v.violations:
+            print('REPRODUCED: ' + x['what'])
+        return 1 if v.violations else 0
     if rec['kind'] == 'walk':
         run = uldrive.random_walk(rec['seed'], rec['req'], rec['steps'])
     elif rec['kind'] == 'corpus':
